@@ -154,6 +154,22 @@ func resultKey(res *sbom.NodeList) string {
 
 // runAll executes the three extraction families on one (list,start) and
 // returns a combined set-level observation for order-independence comparison.
+// depthStride > 1 thins the depth sweep of large graphs: depths 1..8, every depth within 3 of a power of two, every
+// depthStride-th depth and the last four are run (monotonicity is then checked between consecutive tested depths).
+var depthStride = 1
+
+func depthTested(d, maxDepth int) bool {
+	if depthStride <= 1 || d <= 8 || d > maxDepth-4 || d%depthStride == 0 {
+		return true
+	}
+	for p := 16; p <= 1<<20; p <<= 1 {
+		if d >= p-3 && d <= p+3 {
+			return true
+		}
+	}
+	return false
+}
+
 func runAll(t *engine.T, nl *sbom.NodeList, start string, maxDepth int) (string, *engine.Violation) {
 	r := newRef(nl)
 	lv := r.levels(start)
@@ -193,7 +209,11 @@ func runAll(t *engine.T, nl *sbom.NodeList, start string, maxDepth int) (string,
 	obs.WriteString("#S:" + resultKey(s))
 
 	var prev map[string]bool
+	prevD := 0
 	for d := 1; d <= maxDepth; d++ {
+		if !depthTested(d, maxDepth) {
+			continue
+		}
 		wantD, exp := map[string]bool{}, map[string]bool{}
 		for id, l := range lv {
 			if l <= d {
@@ -213,10 +233,10 @@ func runAll(t *engine.T, nl *sbom.NodeList, start string, maxDepth int) (string,
 		got := setOf(dd)
 		for id := range prev {
 			if !got[id] {
-				return "", engine.Violate("descendants-monotone", "", "node %s returned at depth %d but not at depth %d", id, d-1, d)
+				return "", engine.Violate("descendants-monotone", "", "node %s returned at depth %d but not at depth %d", id, prevD, d)
 			}
 		}
-		prev = got
+		prev, prevD = got, d
 		fmt.Fprintf(&obs, "#D%d:%s", d, resultKey(dd))
 	}
 	return obs.String(), nil
@@ -314,33 +334,37 @@ func Run(c *engine.Ctx) {
 
 	// size classes: a 40-leaf star, a 40-node chain, a 40-node cycle, a two-level fan (thresholds, recursion depth)
 	c.Group("wide")
-	{
+	for _, size := range []int{40, 300, 2000} {
+		size := size
 		var leaves []string
-		for i := 0; i < 40; i++ {
+		for i := 0; i < size; i++ {
 			leaves = append(leaves, fmt.Sprintf("l%02d", i))
 		}
+		last, mid := leaves[size-1], leaves[size/2]
 		var chain, cycle []gen.EdgeSpec
 		for i := 0; i+1 < len(leaves); i++ {
 			chain = append(chain, gen.EdgeSpec{From: leaves[i], Type: sbom.Edge_dependsOn, To: []string{leaves[i+1]}})
 		}
-		cycle = append(append([]gen.EdgeSpec{}, chain...), gen.EdgeSpec{From: leaves[39], Type: sbom.Edge_dependsOn, To: []string{leaves[0]}})
+		cycle = append(append([]gen.EdgeSpec{}, chain...), gen.EdgeSpec{From: last, Type: sbom.Edge_dependsOn, To: []string{leaves[0]}})
 		star := []gen.EdgeSpec{{From: "l00", Type: sbom.Edge_contains, To: leaves[1:]}}
-		split := []gen.EdgeSpec{{From: "l00", Type: sbom.Edge_contains, To: leaves[1:20]}, {From: "l05", Type: sbom.Edge_other, To: []string{"l06"}}, {From: "l00", Type: sbom.Edge_contains, To: leaves[15:]}}
+		split := []gen.EdgeSpec{{From: "l00", Type: sbom.Edge_contains, To: leaves[1 : size/2]}, {From: "l05", Type: sbom.Edge_other, To: []string{"l06"}}, {From: "l00", Type: sbom.Edge_contains, To: leaves[size/2-5:]}}
 		shapes := map[string][]gen.EdgeSpec{"chain": chain, "cycle": cycle, "star": star, "star-split": split}
 		names := []string{"chain", "cycle", "star", "star-split"}
-		c.Bound("wide", "40-node chain, cycle, star and split star x root sets {none, l00, l20, l00+l39} x starts {l00, l20, l39} x depths 1..41")
+		c.Bound("wide", "chain, cycle, star and split star of 40, 300 and 2000 nodes x root sets {none, first, middle, first+last} x starts {first, middle, last} x depths 1..n+1 (n=40: all; larger: 1..8, around every power of two, every 50th / 400th, the last four)")
 		for _, sn := range names {
-			for _, roots := range [][]string{nil, {"l00"}, {"l20"}, {"l00", "l39"}} {
-				for _, st := range []string{"l00", "l20", "l39"} {
+			for _, roots := range [][]string{nil, {"l00"}, {mid}, {"l00", last}} {
+				for _, st := range []string{"l00", mid, last} {
 					spec := gen.ListSpec{Nodes: leaves, Edges: shapes[sn], Roots: roots}
 					sn, st := sn, st
-					c.Case(func() any { return map[string]any{"shape": sn, "roots": roots, "start": st} }, func(t *engine.T) *engine.Violation {
-						obs, v := runAll(t, spec.Build(), st, 41)
+					c.Case(func() any { return map[string]any{"shape": sn, "nodes": size, "roots": roots, "start": st} }, func(t *engine.T) *engine.Violation {
+						depthStride = map[int]int{40: 1, 300: 50, 2000: 400}[size]
+						defer func() { depthStride = 1 }()
+						obs, v := runAll(t, spec.Build(), st, size+1)
 						if v != nil {
 							return v
 						}
 						t.Observe(obs)
-						t.State(fmt.Sprintf("wide|%s|%v|%s", sn, roots, st))
+						t.State(fmt.Sprintf("wide|%s|%d|%v|%s", sn, size, roots, st))
 						t.Outcome("wide " + outcomeClass(obs)[:20])
 						return nil
 					})
